@@ -100,7 +100,7 @@ NumPred(op, c, v, cast) ==
             ELSE FM
   ELSE LET r == IF cast = "int" THEN IntCast(v) ELSE FltCast(v) IN
        CASE r.t = "num" -> CmpNums(op, r.n, c)
-         [] r.t = "bad" -> FM
+         [] r.t = "bad" -> {"F"}                  \* C09: a cast of a value that is not convertible gives false
          [] r.t = "unk" -> Tri
          [] r.t = "miss" -> {"M"}
 
@@ -198,8 +198,8 @@ OperandVal(o, doc) ==
 CmpCond(c, doc) ==
   LET x == OperandVal(c.l, doc) y == OperandVal(c.r, doc) IN
   IF x.t = "unk" \/ y.t = "unk" THEN Tri
-  ELSE IF x.t = "bad" \/ y.t = "bad" THEN FM
-  ELSE IF x.t = "miss" \/ y.t = "miss" THEN {"M"}
+  ELSE IF x.t = "miss" \/ y.t = "miss" THEN (IF x.t = "bad" \/ y.t = "bad" THEN FM ELSE {"M"})
+  ELSE IF x.t = "bad" \/ y.t = "bad" THEN {"F"}       \* C09: not convertible gives false
   ELSE IF x.t = "txt" THEN TF(c.op = "eq" /\ x.s = y.s)
   ELSE CmpNums(c.op, x.n, y.n)
 
